@@ -210,6 +210,7 @@ CORPUS_MODULES = {
     "multi_same": ([CF("multi", ["i32", "i32"], "i32"), CF("multi_ret", ["i32", "i32"], "i32")],
                    {"multi": [(1, 2), (0, 0), (100, 7)], "multi_ret": [(1, 2), (0, 0), (100, 7)]}),
     "multi_mixed": ([CF("multi", ["i32", "i64"], "i64")], {"multi": [(3, 10), (0, 0)]}),
+    "brif_result": ([CF("pick", ["i32"], "i32")], {"pick": [(0,), (1,), (7,)]}),
 }
 
 
@@ -218,6 +219,8 @@ def ctl_class(tag, f, args, ref):
         return {3: "call_indirect:type-mismatch", 4: "call_indirect:null-entry"}.get(args[0], "call_indirect:valid")
     if tag.startswith("multi"):
         return "multi-value:" + ("explicit-return" if f.name.endswith("_ret") else "fallthrough-return")
+    if f.name == "sum":
+        return "data-segment:backslash-byte"
     return "ctl:%s" % f.name
 
 
@@ -235,7 +238,7 @@ def corpus_module(ctx, h, tag, flavours, dist, nontrivial):
     m.tag, m.dir, m.rows, m.index = tag, d, funcs, dict((f.name, i) for i, f in enumerate(funcs))
     ref = run_ref(ctx, h, m, calls, "n")
     if rc != 0:
-        key = "multi-value:fallthrough-return" if tag.startswith("multi") else "ctl:%s:translation-fails" % tag
+        key = {"multi_mixed": "multi-value:fallthrough-return", "brif_result": "br_if:target-with-result"}.get(tag, "ctl:%s:translation-fails" % tag)
         ctx.violation(key, "wat2c fails on corpus module %s.wat (%s) although the embedded runtime runs it: f_%s%s -> %s" % (
             tag, out.strip()[:200], calls[0][0].name, calls[0][1], ref[0]), {"wat": wat, "wat2c": out.strip(), "wasm": ref[:4]})
         return
